@@ -49,6 +49,14 @@ IntV(n)    == [t |-> "INT", i |-> n]
 BitsV(bs)  == [t |-> "BITS", bits |-> bs]
 BoolV(b)   == [t |-> "BOOL", b |-> b]
 RTimeV(ms) == [t |-> "RTIME", ms |-> ms]
+\* a COMPUTED duration with a part finer than a millisecond (2s / 3, 1ms * 0.5): ms = the whole milliseconds of the
+\* magnitude with the sign, sub = the rest in nanoseconds (> 0), neg = the sign (needed when ms = 0).  Such a value can
+\* be stored, copied, negated, ordered against whole-millisecond values and converted to a string; everything else
+\* (further arithmetic, == / !=) is outside the model (OOR / UNSPEC).
+RTimeX(q, sub, neg) == IF sub = 0 THEN RTimeV(IF neg THEN -q ELSE q)
+                       ELSE [t |-> "RTIMEX", ms |-> (IF neg THEN -q ELSE q), sub |-> sub, neg |-> neg]
+\* magnitude total / d milliseconds, total >= 0, 0 < d <= 2000
+DivX(total, d, neg) == RTimeX(total \div d, ((total % d) * 1000000) \div d, neg)
 StrV(cs)   == [t |-> "STR", set |-> TRUE, cs |-> cs]
 NotSetV    == [t |-> "STR", set |-> FALSE, cs |-> <<>>]
 Undecl     == [t |-> "UNDECL"]
@@ -141,6 +149,9 @@ ToChars(v, ctx) ==
     [] v.t = "INT"   -> IntChars(v.i)
     [] v.t = "FLOAT" -> FChars(v)
     [] v.t = "RTIME" -> RChars(v.ms)
+    \* RTIME -> STRING shows seconds with three decimals and CUTS what is finer (0.6666.. s has not reached 0.667 s):
+    \* like FLOAT -> INTEGER, a conversion never rounds away from zero
+    [] v.t = "RTIMEX" -> (IF v.neg /\ v.ms = 0 THEN <<"-">> ELSE <<>>) \o RChars(v.ms)
     [] v.t = "BOOL"  -> IF v.b THEN <<"1">> ELSE <<"0">>
     [] OTHER         -> <<"?">>
 
@@ -168,10 +179,25 @@ Truth(v) == CASE v.t = "BOOL" -> BoolV(v.b)
               [] OTHER        -> UnspecV
 
 IsNum(v) == v.t \in {"INT", "FLOAT"}
+\* order of two 64-bit patterns as signed integers: -1, 0, 1
+RECURSIVE CmpFrom(_, _, _)
+CmpFrom(a, b, i) == IF i > 64 THEN 0 ELSE IF a[i] = b[i] THEN CmpFrom(a, b, i + 1) ELSE IF a[i] < b[i] THEN -1 ELSE 1
+CmpBits(a, b) == IF a[1] # b[1] THEN (IF a[1] = 1 THEN -1 ELSE 1) ELSE CmpFrom(a, b, 2)
+\* order of two durations of which at most one has a sub-millisecond part
+XNeg(v) == IF v.t = "RTIMEX" THEN v.neg ELSE v.ms < 0
+XSub(v) == IF v.t = "RTIMEX" THEN v.sub ELSE 0
+CmpX(l, r) == IF XNeg(l) # XNeg(r) THEN (IF XNeg(l) THEN -1 ELSE 1)
+              ELSE LET m == IF Abs(l.ms) # Abs(r.ms) THEN (IF Abs(l.ms) < Abs(r.ms) THEN -1 ELSE 1)
+                            ELSE IF XSub(l) = XSub(r) THEN 0 ELSE IF XSub(l) < XSub(r) THEN -1 ELSE 1 IN
+                   IF XNeg(l) THEN -m ELSE m
 AsF(v) == IF v.t = "INT" THEN FOfInt(v.i) ELSE v
 \* sign of l - r for two ordered values of compatible types; UNSPEC otherwise
 Order(l, r) ==
   CASE l.t = "INT" /\ r.t = "INT"       -> IntV(IF l.i < r.i THEN -1 ELSE IF l.i > r.i THEN 1 ELSE 0)
+    \* INTEGER values beyond 32 bits: exact 64-bit two's-complement order (never through binary64)
+    [] l.t \in {"INT", "BITS"} /\ r.t \in {"INT", "BITS"} -> IntV(CmpBits(BitsOf(l), BitsOf(r)))
+    [] l.t \in {"RTIME", "RTIMEX"} /\ r.t \in {"RTIME", "RTIMEX"} /\ (l.t = "RTIMEX" \/ r.t = "RTIMEX") ->
+         IF l.t = "RTIMEX" /\ r.t = "RTIMEX" THEN UnspecV ELSE IntV(CmpX(l, r))
     [] l.t = "FLOAT" /\ IsNum(r)        -> LET b == AsF(r) IN IF Bad(b) THEN b ELSE
                                             LET c == FCmp(l, b) IN IntV(IF c < 0 THEN -1 ELSE IF c > 0 THEN 1 ELSE 0)
     [] l.t = "RTIME" /\ r.t = "RTIME"   -> IntV(IF l.ms < r.ms THEN -1 ELSE IF l.ms > r.ms THEN 1 ELSE 0)
@@ -188,6 +214,9 @@ Order(l, r) ==
 EqVal(l, r) ==
   CASE l.t = "STR" /\ r.t = "STR"   -> BoolV(l.set /\ r.set /\ l.cs = r.cs)     \* a not-set string equals nothing
     [] l.t = "BOOL" /\ r.t = "BOOL" -> BoolV(l.b = r.b)
+    [] l.t \in {"INT", "BITS"} /\ r.t \in {"INT", "BITS"} -> BoolV(BitsOf(l) = BitsOf(r))
+    \* whether a computed sub-millisecond duration "equals" a neighbouring whole-millisecond one is not described
+    [] l.t = "RTIMEX" \/ r.t = "RTIMEX" -> UnspecV
     [] l.t # r.t -> IF l.t = "BITS" \/ r.t = "BITS" THEN OorV ELSE UnspecV     \* == between different types: the reference is silent
     [] OTHER -> LET o == Order(l, r) IN IF Bad(o) THEN o ELSE BoolV(o.i = 0)
 Compare(op, l, r) ==
@@ -201,6 +230,7 @@ NegVal(v) ==
   CASE v.t = "INT"   -> IntV(-v.i)
     [] v.t = "FLOAT" -> FNeg(v)
     [] v.t = "RTIME" -> RTimeV(-v.ms)
+    [] v.t = "RTIMEX" -> [v EXCEPT !.ms = -v.ms, !.neg = ~v.neg]
     [] v.t = "BITS"  -> OorV
     [] OTHER         -> UnspecV
 
@@ -223,6 +253,7 @@ Ev(e, S, ctx) ==
     [] e.k = "str"   -> R(StrV(e.cs))
     [] e.k = "bool"  -> R(BoolV(e.bv))
     [] e.k = "rtime" -> R(RTimeV(e.ms))
+    [] e.k = "bits"  -> R(NormInt(e.bits))        \* an INTEGER literal beyond 32 bits, given as its 64-bit pattern
     [] e.k = "id"    -> R(IF S[e.name].t = "UNDECL" THEN ErrV ELSE S[e.name])
     [] e.k = "neg"   -> LET r == Ev(e.e, S, ctx) IN IF Bad(r.v) THEN r ELSE [v |-> NegVal(r.v), g |-> r.g]
     [] e.k = "not"   -> LET r == Ev(e.e, S, ctx) IN
@@ -326,6 +357,7 @@ FloatOp(op, l, r) ==
               [] OTHER     -> UnspecV
 
 RTimeOp(op, l, r) ==
+  IF l.t = "RTIMEX" \/ r.t = "RTIMEX" THEN (IF op = "=" /\ r.t = "RTIMEX" THEN r ELSE OorV) ELSE
   CASE op \in {"=", "+=", "-="} ->
          \* an INTEGER operand (a variable) counts seconds: converted to the target type first, as for INTEGER targets;
          \* FLOAT operands of the additive operators are left unspecified (falco's `=` and `+=` disagree about the unit)
@@ -337,14 +369,20 @@ RTimeOp(op, l, r) ==
          IF r.t = "INT" THEN (IF Abs(l.ms) >= 32768 * 16 \/ Abs(r.i) >= 2048 THEN OorV ELSE MkRTime(l.ms * r.i))
          ELSE IF r.t = "FLOAT" THEN
               (IF Abs(l.ms) >= 32768 * 16 \/ Abs(r.n) >= 2048 THEN OorV
-               ELSE IF (l.ms * r.n) % Pow2(r.e) # 0 THEN OorV ELSE MkRTime((l.ms * r.n) \div Pow2(r.e)))
+               ELSE IF (l.ms * r.n) % Pow2(r.e) # 0 THEN DivX(Abs(l.ms * r.n), Pow2(r.e), (l.ms < 0) # (r.n < 0))
+               ELSE MkRTime((l.ms * r.n) \div Pow2(r.e)))
          ELSE UnspecV
     [] op = "/=" ->
-         IF r.t = "INT" THEN (IF r.i = 0 THEN ErrV ELSE IF l.ms % Abs(r.i) # 0 THEN OorV ELSE MkRTime(TruncDiv(l.ms, r.i)))
+         IF r.t = "INT" THEN (IF r.i = 0 THEN ErrV
+                              ELSE IF l.ms % Abs(r.i) # 0 THEN (IF Abs(r.i) > 2000 \/ Abs(l.ms) >= Lim THEN OorV
+                                                                ELSE DivX(Abs(l.ms), Abs(r.i), (l.ms < 0) # (r.i < 0)))
+                              ELSE MkRTime(TruncDiv(l.ms, r.i)))
          ELSE IF r.t = "FLOAT" THEN
               (IF r.n = 0 THEN ErrV
                ELSE IF Abs(l.ms) >= 32768 * 256 THEN OorV
-               ELSE IF (l.ms * Pow2(r.e)) % Abs(r.n) # 0 THEN OorV ELSE MkRTime(TruncDiv(l.ms * Pow2(r.e), r.n)))
+               ELSE IF (l.ms * Pow2(r.e)) % Abs(r.n) # 0 THEN (IF Abs(r.n) > 2000 THEN OorV
+                                                                ELSE DivX(Abs(l.ms) * Pow2(r.e), Abs(r.n), (l.ms < 0) # (r.n < 0)))
+               ELSE MkRTime(TruncDiv(l.ms * Pow2(r.e), r.n)))
          ELSE UnspecV
     [] OTHER -> UnspecV
 
